@@ -14,7 +14,10 @@ from harness.vloop import install
 
 ID = "C19"
 EXHAUSTIVE = True
-RULE = ("Part 'configs' enumerates EXHAUSTIVELY the finite product root kind (plain Stream or "
+RULE = ("Part 'blocking-runtime' runs blocking pipelines (nothing declared) with map_async / "
+        "buffer / delay / rate_limit, with and without start() from the caller's thread: results "
+        "arrive and every callback ran on the thread of the pipeline's loop. "
+        "Part 'configs' enumerates EXHAUSTIVELY the finite product root kind (plain Stream or "
         "each offline-constructible source: from_periodic, from_iterable, from_textfile, "
         "filenames, from_q) x root asynchronous in {None, True, False} x root loop in {none, "
         "current, other} x child kind (plain map or each loop-requiring node: buffer, delay, "
